@@ -19,6 +19,10 @@ type World struct {
 	Traces map[int][]string
 	// OnEmit, when set, sees every marker (task, text) as it is emitted.
 	OnEmit func(task int, text string)
+	// Scrub, when not empty, is removed from every marker text: the
+	// per-case name suffix, which differs between processes, must not reach
+	// the event log when a program reports names it has defined.
+	Scrub string
 }
 
 var cur *World
@@ -69,6 +73,9 @@ func (f *emit) Call(s *slip.Scope, args slip.List, depth int) slip.Object {
 	}
 	text := strings.Join(parts, " ")
 	if w := cur; w != nil && w.S != nil {
+		if w.Scrub != "" {
+			text = strings.ReplaceAll(text, w.Scrub, "")
+		}
 		id := w.S.CurID()
 		w.Traces[id] = append(w.Traces[id], text)
 		w.S.Emit("emit", text)
